@@ -44,7 +44,9 @@ func main() {
 		fmt.Printf("height %d: txs=%d hash=%s A==B:%v state A==B:%v mempool=%d\n", hd.Height, hd.NumTxs, hex.EncodeToString(hd.Hash)[:16],
 			a.HeaderBytes(hd.Height) == b.HeaderBytes(hd.Height), a.StateDigest() == b.StateDigest(), a.MempoolCount())
 	}
-	b.Reopen()
+	if stage, err := b.Reopen(); err != nil {
+		must(err, "reopen: "+stage)
+	}
 	fmt.Printf("B reopened: height %d state==A:%v\n", b.Height(), a.StateDigest() == b.StateDigest())
 	c := net.NewNode(-1)
 	for h := uint64(1); h < a.Height(); h++ {
